@@ -234,7 +234,12 @@ impl Backend {
                 // Find where in the fixture the dependency is referenced
                 // (parameter position in the signature)
                 let from_ranges = self
-                    .find_parameter_ranges(&file_path, definition.line, dep_name)
+                    .find_parameter_ranges(
+                        &file_path,
+                        definition.line,
+                        definition.end_line,
+                        dep_name,
+                    )
                     .unwrap_or_else(|| vec![to_range]);
 
                 outgoing_calls.push(CallHierarchyOutgoingCall {
@@ -249,34 +254,33 @@ impl Backend {
     }
 
     /// Find the range(s) where a parameter name appears in a function signature.
+    ///
+    /// The analyzer records every fixture-requesting parameter as a usage with its exact
+    /// span. A text search for the name on the `def` line would also hit the function's own
+    /// name (`def foo(foo)`) or a longer identifier containing it (`def my_fixture(my)`),
+    /// and would miss a parameter on a later line of a wrapped signature.
     fn find_parameter_ranges(
         &self,
         file_path: &std::path::Path,
         line: usize,
+        end_line: usize,
         param_name: &str,
     ) -> Option<Vec<Range>> {
-        let content = self.fixture_db.file_cache.get(file_path)?;
-        let lines: Vec<&str> = content.lines().collect();
+        let usages = self.fixture_db.usages.get(file_path)?;
+        let usage = usages
+            .iter()
+            .find(|u| u.line >= line && u.line <= end_line && u.name == param_name)?;
 
-        // Get the line (0-indexed internally, but definition.line is 1-indexed)
-        let line_content = lines.get(line.saturating_sub(1))?;
-
-        // Find the parameter in the line
-        if let Some(start) = line_content.find(param_name) {
-            let lsp_line = Self::internal_line_to_lsp(line);
-            let range = Range {
-                start: Position {
-                    line: lsp_line,
-                    character: start as u32,
-                },
-                end: Position {
-                    line: lsp_line,
-                    character: (start + param_name.len()) as u32,
-                },
-            };
-            return Some(vec![range]);
-        }
-
-        None
+        let lsp_line = Self::internal_line_to_lsp(usage.line);
+        Some(vec![Range {
+            start: Position {
+                line: lsp_line,
+                character: usage.start_char as u32,
+            },
+            end: Position {
+                line: lsp_line,
+                character: usage.end_char as u32,
+            },
+        }])
     }
 }
